@@ -6,6 +6,11 @@ HERE = os.path.dirname(os.path.abspath(__file__))
 
 # id -> (level, technique, text, note)   (only implemented checks are listed; the rest go to not_applicable)
 CHECKS = {
+    "C15": ("model_checking",
+            "deviation-bounded exhaustive exploration of field assignments of 45 typed models (absent/default/other per field, all enum variants, nested models, unknown keys, int-vs-real spelling) through the real reader and writer on a real Storage",
+            "For every model that can be read and written the explorer enumerates all dictionaries within 5 (quick) / 8 (thorough) field deviations of the minimal valid one; oracle p0 -> T -> p1 -> T -> p2 with p1 == p2, and for catch-all models every input entry preserved (recursively, up to omitted defaults, int == real, equal dates). A guard keeps the table in step with the #[pdf(key)] attributes in the sources.",
+            "Trusted: the harness-side model table (checked against the sources by the guard). Writers that are unimplemented (NameTree, Function, ColorSpace) are outside the property; fields needing resolvable targets stay absent.",
+            "§5 C15"),
     "C01": ("fault_enumeration",
             "exhaustive enumeration of the single-fault edit neighbourhood (every byte substitution over an alphabet at every offset, every truncation / prefix drop, every number token replaced by boundary tokens; thorough: deletions, insertions, entry deletion/duplication, all numbers of the file, fault pairs in the trailer region) of a seed set, each walked completely in worker processes under all configurations",
             "'All byte strings' cannot be enumerated; what is enumerated completely is the stated neighbourhood of generated seeds (one per structural feature) and of the corpus crash files. Every faulted input is opened strict/tolerant x cached/uncached and every read entry point is exercised by the walker inside a worker process so that panics, stack overflows, aborts, allocation failures and hangs are observed and attributed to one input.",
